@@ -61,6 +61,7 @@ class TraceBuilder:
         self.nfa = NFA()
         self.sites = {}                 # label -> [(func, lineno)]
         self.inlined = set()
+        self.inlined_funcs = {}
 
     def build(self, func):
         start = self.nfa.new()
@@ -116,6 +117,7 @@ class TraceBuilder:
                 m = self.repo.lookup_method(self.cls, nm)
                 if m is not None and m.qualname not in stack:
                     self.inlined.add(m.qualname)
+                    self.inlined_funcs[m.ident] = m
                     s = self._join(cur)
                     r2 = self.nfa.new()
                     outs = self._seq(m.node.body, {s}, m, depth + 1, r2, stack + [m.qualname])
